@@ -1,9 +1,9 @@
 package props
 
 import (
-	"os"
 	"fmt"
 	"math/big"
+	"os"
 	"strings"
 
 	"svcheck/absint"
